@@ -9,7 +9,10 @@ import sys
 HERE = os.path.dirname(os.path.dirname(os.path.abspath(__file__)))
 sys.path.insert(0, os.path.join(HERE, "harness"))
 ALL = ["C%02d" % i for i in range(1, 21)]
-TECH = "Lean 4 machine-checked proof over a hand-written model (induction / invariants / refinement / kernel-decided finite tables) + generated facts + differential correspondence with the ASan/UBSan build"
+TECH = ("Lean 4 machine-checked proof (induction / invariants / refinement / kernel-decided finite tables) over a model that is partly hand-written "
+        "and partly TRANSLATED from the C source on every run (tables, ll.h, base64 arms, keyring functions, decision skeletons of the verify / "
+        "generate / import / configuration / typed-map functions, each proved equal to the hand-written part) + differential correspondence "
+        "of the executable model with the ASan/UBSan build")
 NOT_YET = "check not built yet in this round (design in DESIGN.md section 8); not claimed until its theorems and correspondence suite exist"
 REASONS = {}
 m = {
